@@ -64,9 +64,12 @@ class Tree:
         elif a == "rootver":
             v = st["v"]
             self.root.config["imaging"]["frame rate"] = 2000.0 * v
-            # (a key of the section that feeds computed features)
-            self.root.config["calculation"]["emodulus temperature"] = \
-                20.0 + v
+            # (every second change also touches a key of the section that
+            # is copied to the children)
+            self.nver = getattr(self, "nver", 0) + 1
+            if self.nver % 2 == 0:
+                self.root.config["calculation"]["emodulus temperature"] = \
+                    20.0 + self.nver
             dclab.set_temporary_feature(
                 self.root, "verif_tmp",
                 np.arange(1, self.n + 1) * 100.0 + v)
